@@ -56,3 +56,5 @@ package config
 //@ func Store.parse
 //@   option nosafety
 //@   callsite map-update:FriendsByName friends-filed-under-their-lookup-name [C19]: arg1 == friendNameKey(friend.Name)
+// configured resolve entries are filed under the cleaned form of their name (what queries are looked up with)
+//@   callsite map-update:Resolve configured-names-filed-under-their-cleaned-form [C19]: arg1 == uf("fn:config.CleanDomain#0", string, domain)
